@@ -479,13 +479,17 @@ func c04early(c *an.Ctx) {
 				"the heap head can be removed although its deadline is later than the scan time (comparison missing, flipped or against another value): messages time out / are delivered before their delay elapsed")
 		}
 		// non-nil result only on that edge: every return of a non-nil first result is dominated by the same fact
-		for _, r := range an.Returns(fn) {
-			v := an.Resolve(r.Results[0])
-			if an.IsNilConst(v) {
+		for _, rc := range returnCases(fn, 0) {
+			r := rc.ret
+			if an.IsNilConst(rc.val) {
 				continue
 			}
 			good := false
-			for _, cmp := range an.CmpsAt(r.Block()) {
+			for _, f := range rc.facts {
+				cmp, isCmp := f.AsCmp()
+				if !isCmp {
+					continue
+				}
 				oc, ok := cmp.Oriented(isHeadKey)
 				if ok && oc.Op == token.LEQ && isParam(oc.Y, fn, 1) {
 					good = true
